@@ -49,6 +49,10 @@ class Ctx:
 def run_rule(led, rid, text, fn, *args):
     """Evaluate one rule; a vanished anchor or a crash of the rule fails closed."""
     led.rule(rid, text)
+    seen = getattr(led, "_rule_fns", None)
+    if seen is None:
+        seen = led._rule_fns = set()
+    seen.add(getattr(fn, "__qualname__", str(fn)) + "@" + getattr(fn, "__module__", ""))
     try:
         fn(led, rid, *args)
     except facts.AnchorMissing as e:
